@@ -3,6 +3,7 @@ import Holpy.C13.Goal
 import Holpy.C13.Numbering
 import Holpy.C13.Remove
 import Holpy.C13.Tactic
+import Holpy.C13.GoalTactic
 /-
 C13 — property theorems about the structural model of Holpy/C13/Model.lean.
 `wf` = every line carries the id of the position it sits at (contiguous numbering at every depth)
@@ -10,9 +11,8 @@ C13 — property theorems about the structural model of Holpy/C13/Model.lean.
 Proved: each of the five operations (`add_line_before`, `remove_line`, `set_line`, `replace_id`,
 `apply_tactic`) preserves `wf` under the precondition the code establishes for it, hence every
 sequence does; in a well-formed state every citation names an existing earlier visible line.
-For the last top-level line (the stated goal) only the four primitive edits are covered
-(`goal_preserved_partial`, under `safeRun`); `apply_tactic` as a composite and the export/import
-pair are judged by the oracle of harness/props/c13.py and the correspondence stream only.
+The last top-level line (the stated goal) keeps rule and sequent under all five operations
+(`goal_preserved`, `tactics_preserve_goal`, `apply_tactic_keeps_statement`).
 -/
 namespace Holpy.C13
 
@@ -158,42 +158,42 @@ theorem edits_preserve_wf : ∀ (ops : List Op) (s s' : Proof), wf s = true →
       exact edits_preserve_wf ops s1 s' (edit_preserves_wf s s1 op hw hs.1 h1) (hs.2 s1 h1) h
     · simp at h
 
-/-- An edit whose target lies inside a subproof (`add_line_before`, `remove_line`, `set_line` with
-an id of depth ≥ 2) leaves rule and stated sequent of every top-level line — in particular of the
-last one, the stated goal — unchanged.  Partial: edits at top level are not covered. -/
-theorem goal_preserved_nested_partial (s s' : Proof) (i j : Nat) (rest : List Nat) :
-    (∀ n, addLineBefore s (i :: j :: rest) n = .ok s' → s'.map sigOf = s.map sigOf) ∧
-    (removeLine s (i :: j :: rest) = .ok s' → s'.map sigOf = s.map sigOf) ∧
-    (∀ r p th, setLine s (i :: j :: rest) r p th = .ok s' → s'.map sigOf = s.map sigOf) := by
-  have hd : ∃ rest', (i :: j :: rest).dropLast = i :: rest' := by
-    cases rest <;> simp [List.dropLast]
-  obtain ⟨rest', hrest⟩ := hd
-  refine ⟨?_, ?_, ?_⟩
-  · intro n h
-    unfold addLineBefore at h
-    split at h
-    · simp at h
-    · rw [hrest] at h; exact sig_modifyAt_nested _ _ _ _ _ h
-  · intro h
-    unfold removeLine at h
-    split at h
-    · simp at h
-    · rw [hrest] at h; exact sig_modifyAt_nested _ _ _ _ _ h
-  · intro r p th h
-    unfold setLine placeItem at h
-    split at h
-    · simp at h
-    · rw [hrest] at h; exact sig_modifyAt_nested _ _ _ _ _ h
+/-- `apply_tactic(id, …)` keeps the statement of every top-level line other than its goal: for a
+top-level goal `[k]` the lines before and after it keep rule and stated sequent, in place, and only
+the goal line is replaced by a segment `X` (the surviving lines of the proof term, whose last line
+states `pt.th`, which proves the goal's sequent by the hypothesis `pt.th.can_prove(goal)` that
+fix C13-9 asserts in every tactic); for a goal inside a subproof no top-level line changes. -/
+theorem apply_tactic_keeps_statement (s s' : Proof) (id : IId) (new : List NewLine) (cur : Item)
+    (hcur : findItem s id = some cur) (hid : exportedAt id new) (h : applyTactic s id new = .ok s') :
+    (∀ k, id = [k] → ∃ X, s'.map sigOf = (s.map sigOf).take k ++ X ++ (s.map sigOf).drop (k + 1)) ∧
+    (2 ≤ id.length → s'.map sigOf = s.map sigOf) := by
+  refine ⟨fun k hk => ?_, fun hn => applyTactic_nested s s' id new hn hid h⟩
+  subst hk
+  exact applyTactic_top s s' k new cur hcur hid h
 
-/-- Along every completed sequence of `add_line_before` / `remove_line` / `set_line` / `replace_id`
-calls whose targets are existing lines and never the last top-level line itself (`safeRun`), the
-last top-level line keeps its rule and its stated sequent.  Partial: this only says that edits
-which do not target the last line leave it alone; that the methods meet `safeRun` (they remove and
-overwrite gaps and lines they inserted, the last line is the `intros` line) and that the composite
-`apply_tactic` keeps the last line is not proved (oracle + correspondence only). -/
-theorem goal_preserved_partial (ops : List Op) (s s' : Proof) (hs : safeRun s ops) (h : run s ops = .ok s') :
+/-- `apply_tactic` keeps rule and stated sequent of the last top-level line — the line that states
+the theorem — whenever that line is not itself a gap (it is the `intros` line; `apply_tactic`
+asserts that its target is a gap, so the target is another line). -/
+theorem apply_tactic_keeps_goal_line (s s' : Proof) (id : IId) (new : List NewLine)
+    (hid : exportedAt id new) (hlast : lastNotGap s)
+    (h : applyTactic s id new = .ok s') : (s'.getLast?).map sigOf = (s.getLast?).map sigOf :=
+  applyTactic_keeps_last s s' id new hid hlast h
+
+/-- After any sequence of tactic applications that complete, the last top-level line still has the
+rule and states the sequent it had at the start (the original goal). -/
+theorem tactics_preserve_goal (ts : List (IId × List NewLine)) (s s' : Proof)
+    (hid : ∀ t ∈ ts, exportedAt t.1 t.2) (hlast : lastNotGap s) (h : runTactics s ts = .ok s') :
     (s'.getLast?).map sigOf = (s.getLast?).map sigOf :=
-  goal_preserved_run ops s s' hs h
+  runTactics_keeps_last ts s s' hid hlast h
+
+/-- Along every completed sequence of the five operations, the last top-level line keeps its rule
+and its stated sequent, under the preconditions `safeRunAll`: the primitives insert before existing
+lines and remove / overwrite / replace lines other than the last top-level one (the methods do so
+with gaps and with lines they inserted); `apply_tactic` gets exported lines numbered id, id+1, …
+while the last line is not a gap. -/
+theorem goal_preserved (ops : List Op) (s s' : Proof) (hs : safeRunAll s ops) (h : run s ops = .ok s') :
+    (s'.getLast?).map sigOf = (s.getLast?).map sigOf :=
+  goal_preserved_run_all ops s s' hs h
 
 /-! Non-vacuity: a state with a subproof; inserting two lines inside it and setting one of them. -/
 def s1 : Proof :=
@@ -232,8 +232,27 @@ example : (match replaceId s1 [0, 1] [0, 0] with
 
 example : ∃ it, findItem s1 [0, 2] = some it ∧ it.prevs = [[0, 0], [0, 1]] := ⟨_, rfl, rfl⟩
 
-example : safeRun s1 [.addLineBefore [1] 1, .addLineBefore [0, 1] 1, .removeLine [0, 1]] := by
-  simp [safeRun, goalSafe, targetOk, s1]
+example : safeRunAll s1 [.addLineBefore [1] 1, .addLineBefore [0, 1] 1, .removeLine [0, 1]] := by
+  simp [safeRunAll, goalSafeAll, goalSafe, targetOk, s1]
+
+/-- a top-level goal: `0: sorry; 1: intros from 0`, a tactic with one gap and a conclusion -/
+def s2 : Proof := [.mk [0] ruleSorry [] (some ⟨5, []⟩) false [], .mk [1] 4 [[0]] (some ⟨5, []⟩) false []]
+def new2 : List NewLine :=
+  [⟨.mk [0] ruleSorry [] (some ⟨7, []⟩) false [], false⟩, ⟨.mk [1] 9 [[0]] (some ⟨5, []⟩) false [], false⟩]
+
+example : exportedAt [0] new2 ∧ lastNotGap s2 ∧ findItem s2 [0] = some (.mk [0] ruleSorry [] (some ⟨5, []⟩) false []) := by
+  refine ⟨?_, ?_, rfl⟩
+  · intro k hk
+    have : k = 0 ∨ k = 1 := by simp [new2] at hk; omega
+    rcases this with h | h <;> subst h <;> rfl
+  · intro it hit
+    simp [s2] at hit
+    subst hit
+    decide
+
+example : (match runTactics s2 [([0], new2)] with
+    | .ok s' => wf s' && ((s'.getLast?).map sigOf == (s2.getLast?).map sigOf) && s'.length == 3
+    | .error _ => false) = true := by decide
 
 example : (match run s1 [.addLineBefore [1] 1, .addLineBefore [0, 1] 1, .removeLine [0, 1]] with
     | .ok s' => wf s' && ((s'.getLast?).map sigOf == (s1.getLast?).map sigOf) && s'.length == 3
